@@ -40,6 +40,20 @@ CLAIMED = {
          'proved only as: nothing else is removed and everything returned was selected. clone and "g is left untouched" are oracle-checked (the model is purely functional). No axioms.',
     technique='Coq proof (joint flatten/unflatten invariant by fuel induction, partition and sorting lemmas) + per-run model-vs-implementation correspondence by vm_compute',
     ref='DESIGN.md section 5, C03'),
+  'C04': dict(
+    text='PARTIAL. A Gallina model of the UpdateContext protocol behind nnx.jit / remat / cond / switch / while_loop / fori_loop / cached_partial (outer split with one ref_index for all '
+         'arguments, inner merge, inner split carrying outer indices, outer merge re-using the caller\'s objects) and of a language of functions on object graphs (reads, Variable updates '
+         'with int64 arithmetic, setattr of statics / aliases / new Variables / new nodes, delattr). Proved for every heap, arguments and graph left by the function: the inner copies alias '
+         'exactly like the caller\'s objects, across arguments too; the write-back puts an isomorphic copy of the inner graph into the caller\'s heap, copies go back into the very objects '
+         'they were copied from, new objects get fresh locations, nothing else is touched. Tied to /repo per run: random graphs x aliased argument tuples x functions x transforms x call '
+         'histories re-using the transformed function; the model\'s eager run and protocol run are both compared in Coq with the real eager call and the real transform (value, final graph, '
+         'which objects are the caller\'s own).',
+    note='Trusted: Coq kernel, vm_compute, harness (function interpreter, canonical form), jaxcompat, JAX tracing / lax control flow / jit cache. NOT proved: that functions of the '
+         'language cannot distinguish isomorphic heaps (the step from the three theorems to run_ctx = run_eager); decided per run by the correspondence. Loops are modelled as one protocol '
+         'run around the k-fold body. cached_partial: value updates only, graphs without array attributes (known findings F16 stale clone, F20 array attributes); F21 (aliased cached '
+         'arguments, KeyError) found by this check and fixed. pmap / shard_map / custom_vjp / eval_shape not run. No axioms.',
+    technique='Coq proof (joint invariant of inner flatten and placed unflatten by fuel induction; placement injectivity) + per-run model-vs-implementation correspondence by vm_compute',
+    ref='DESIGN.md section 5, C04'),
   'C09': dict(
     text='Linen: on the reference semantics of C01, every key handed out is addressed by (stream after the params fallback, module path, per-scope count) and no two draws of one init/apply share '
          'an address (invariant over the interpreter, all programs); the byte string hashed with the separator determines the path for zero-free components (F8 and the no-separator collision '
